@@ -2,6 +2,7 @@ package core
 
 import (
 	"go/types"
+	"sort"
 	"strings"
 
 	"golang.org/x/tools/go/ssa"
@@ -298,4 +299,121 @@ func frameTerm(fn *ssa.Function, t *Term, d int) *Term {
 		return t
 	}
 	return normalize(n)
+}
+
+// ---- facts a private helper inherits from its call sites ------------------------
+//
+// `if new(big.Int).Mod(pf.T, q).Sign() == 0 { return false }; return pf.equationHolds(…)`: what every
+// call site of a private helper has established holds inside the helper. The facts at the call sites
+// (term facts only) are rewritten into the helper's frame — an argument's term becomes the parameter —
+// and those common to all call sites are added to the facts of every block of the helper.
+
+var callerFactsCache = map[*ssa.Function][]TFact{}
+var callerFactsBusy = map[*ssa.Function]bool{}
+
+func replaceByKey(t *Term, m map[string]*Term, d int) *Term {
+	if t == nil || d > 12 {
+		return t
+	}
+	if r, ok := m[t.Key()]; ok {
+		return r
+	}
+	if len(t.Args) == 0 {
+		return t
+	}
+	n := &Term{Op: t.Op, Name: t.Name, V: t.V}
+	changed := false
+	for _, a := range t.Args {
+		b := replaceByKey(a, m, d+1)
+		if b != a {
+			changed = true
+		}
+		n.Args = append(n.Args, b)
+	}
+	if !changed {
+		return t
+	}
+	n.V = nil
+	return normalize(n)
+}
+
+// CallerFacts: the term facts common to all call sites of the private helper h, in h's frame.
+func CallerFacts(h *ssa.Function) []TFact {
+	if !PrivateHelper(h) {
+		return nil
+	}
+	if fs, ok := callerFactsCache[h]; ok {
+		return fs
+	}
+	if callerFactsBusy[h] {
+		return nil
+	}
+	callerFactsBusy[h] = true
+	defer delete(callerFactsBusy, h)
+	var common map[string]TFact
+	sites := helperCallSites(h)
+	n := 0
+	for _, cs := range sites {
+		if cs.Parent() == h {
+			continue // recursion
+		}
+		if _, isGo := cs.(*ssa.Go); isGo {
+			callerFactsCache[h] = nil
+			return nil // started asynchronously: the spawner's facts are not the body's
+		}
+		if _, isDefer := cs.(*ssa.Defer); isDefer {
+			callerFactsCache[h] = nil
+			return nil
+		}
+		n++
+		m := map[string]*Term{}
+		for i, p := range h.Params {
+			if i < len(cs.Common().Args) {
+				at := TermOf(cs.Common().Args[i])
+				if at.Op != "const" && at.Op != "nil" {
+					m[at.Key()] = TermOf(p)
+				}
+			}
+		}
+		here := map[string]TFact{}
+		for _, f := range TFactsAt(cs.Block(), 2) {
+			switch f.Kind {
+			case FCmp, FSign, FInt, FNil, FBool:
+			default:
+				continue
+			}
+			g := f
+			g.Call = nil
+			if g.X != nil {
+				g.X = replaceByKey(g.X, m, 0)
+			}
+			if g.Y != nil {
+				g.Y = replaceByKey(g.Y, m, 0)
+			}
+			g.Via = "call site of " + h.Name()
+			here[g.String()] = g
+		}
+		if common == nil {
+			common = here
+		} else {
+			for k := range common {
+				if _, ok := here[k]; !ok {
+					delete(common, k)
+				}
+			}
+		}
+	}
+	var out []TFact
+	if n > 0 {
+		var keys []string
+		for k := range common {
+			keys = append(keys, k)
+		}
+		sort.Strings(keys)
+		for _, k := range keys {
+			out = append(out, common[k])
+		}
+	}
+	callerFactsCache[h] = out
+	return out
 }
